@@ -268,6 +268,17 @@ static inline void op_history(Ctx &c, const std::string &img) {
       std::vector<StrItem> v; for (auto &s : m.S) v.push_back({s, 0});
       exp = strs_canon(v, c.ordered()); have = true;
     }
+    if (q.type == 0 && !c.ordered() && m.has(q.arg)) {
+      // hash kinds: the ID of a member is arbitrary, but it must be a valid ID whose string is the member (locate/extract closure)
+      obs::count("eval.history_model");
+      size_t id = strtoull(ansA[i].c_str(), NULL, 10);
+      std::string e; bool isnull = true; uint rl = 0;
+      bool ok = id >= 1 && id <= m.n && do_extract(c, id, &e, &isnull, &rl, "C14", "history") && e == q.arg;
+      if (!ok) {
+        obs::violation("C14", "history", "wrong-answer-in-history", HQ_NAMES[q.type], hq_str(q) + " (call " + std::to_string(i) + ") answered " + obs::esc(ansA[i], 60) + " for a member" + (id >= 1 && id <= m.n ? ", whose extract is " + obs::esc(e, 60) : std::string()));
+        break;
+      }
+    }
     if (have) {
       obs::count("eval.history_model");
       if (exp != ansA[i]) {
